@@ -184,55 +184,105 @@ def check_return_kinds(ctx):
         ctx.check('R-CONV/return-kind', f, 'mode %s covered' % m, k >= 1, 'no return for mode %s' % m, f.node, nontrivial=False)
 
 
+def _isnull_guard(body, v):
+    """body == `<null value> if isnull(v) else <conv>` (or the notnull mirror) -> (null arm, value arm) or None"""
+    if not isinstance(body, ast.IfExp):
+        return None
+    t = body.test
+    neg = False
+    if isinstance(t, ast.UnaryOp) and isinstance(t.op, ast.Not):
+        t, neg = t.operand, True
+    if not (isinstance(t, ast.Call) and U(t.func) in ('pd.isnull', 'pd.isna', 'np.isnan', 'pd.notnull', 'pd.notna')
+            and len(t.args) == 1 and U(t.args[0]) == v):
+        return None
+    if U(t.func) in ('pd.notnull', 'pd.notna'):
+        neg = not neg
+    return (body.orelse, body.body) if neg else (body.body, body.orelse)
+
+
+def _has_str(e):
+    return any(isinstance(c, ast.Call) and isinstance(c.func, ast.Name) and c.func.id == 'str' for c in ast.walk(e))
+
+
 def check_value_mapping(ctx):
+    """every str() of an element is control dependent on `not isnull(element)`"""
     repo = ctx.repo
     f = repo.fn(CONVERTER, 'series_to_str')
     view = view_of(f)
     conds = Conds(f.node, None)
-    lambdas = [(n, n.body, n.args.args[0].arg) for n in ast.walk(f.node) if isinstance(n, ast.Lambda) and n.args.args]
+    maps = [(n, n.body, n.args.args[0].arg) for n in ast.walk(f.node) if isinstance(n, ast.Lambda) and len(n.args.args) == 1]
     for c in ast.walk(f.node):
         if isinstance(c, (ast.ListComp, ast.GeneratorExp)) and len(c.generators) == 1 and isinstance(c.generators[0].target, ast.Name):
-            lambdas.append((c, c.elt, c.generators[0].target.id))
+            maps.append((c, c.elt, c.generators[0].target.id))
+    # formatter names: locals bound only to `str` or to lambdas
+    formatters = {}
+    for n in walk_own(f.node):
+        if isinstance(n, ast.Assign) and isinstance(n.targets[0], ast.Name):
+            v = n.value
+            alts = [v.body, v.orelse] if isinstance(v, ast.IfExp) else [v]
+            if all(isinstance(a, ast.Lambda) or (isinstance(a, ast.Name) and a.id == 'str') for a in alts):
+                formatters.setdefault(n.targets[0].id, []).extend(alts)
     n = 0
-    for lam, body, v in lambdas:
-        strs = [c for c in ast.walk(body) if isinstance(c, ast.Call) and isinstance(c.func, ast.Name) and c.func.id == 'str']
-        if not strs:
+    guarded_calls = set()
+    unguarded = []
+    mapping_nodes = set()
+    for node, body, v in maps:
+        arms = _isnull_guard(body, v)
+        uses_fmt = [c for c in ast.walk(body) if isinstance(c, ast.Call) and isinstance(c.func, ast.Name) and c.func.id in formatters]
+        if not _has_str(body) and not uses_fmt:
             continue
+        if arms is not None:
+            n += 1
+            null_arm, val_arm = arms
+            ok = U(null_arm) in ('np.NaN', 'np.nan', 'None', "float('nan')", v) and not _has_str(null_arm) \
+                and not any(isinstance(c, ast.Call) and isinstance(c.func, ast.Name) and c.func.id in formatters for c in ast.walk(null_arm)) \
+                and isinstance(val_arm, ast.Call) and isinstance(val_arm.func, ast.Name) \
+                and (val_arm.func.id == 'str' or val_arm.func.id in formatters)
+            mapping_nodes.add(id(node))
+            for c in uses_fmt:
+                if any(x is c for x in ast.walk(val_arm)):
+                    guarded_calls.add(id(c))
+            has_int = any(isinstance(c, ast.Call) and isinstance(c.func, ast.Name) and c.func.id == 'int' for c in ast.walk(body))
+            ctx.check('R-CONV/nan-preserving', f, 'str(int(v)) mapping' if has_int else 'str(v) mapping', ok,
+                      'the element mapping `%s` does not keep a missing value missing (NaN in the isnull arm, str(..) in the '
+                      'other)' % U(node)[:80], node, sample=U(node)[:90])
+            if has_int:
+                _check_integral(ctx, f, view, conds, node)
+        else:
+            unguarded.append((node, body, v))
+    # an unguarded str-lambda is fine only as a formatter that is called exclusively under a guard
+    for node, body, v in unguarded:
+        name = None
+        for k, alts in formatters.items():
+            if any(a is node for a in alts):
+                name = k
+        calls = [c for c in ast.walk(f.node) if isinstance(c, ast.Call) and isinstance(c.func, ast.Name) and c.func.id == name] if name else []
+        others = [x for x in ast.walk(f.node) if isinstance(x, ast.Name) and x.id == name and isinstance(x.ctx, ast.Load)
+                  and not any(c.func is x for c in calls)] if name else []
+        ok = name is not None and calls and all(id(c) in guarded_calls for c in calls) and not others
         n += 1
-        ok = isinstance(body, ast.IfExp)
-        why = 'the element mapping `%s` converts without testing for a missing value: NaN becomes the string \'nan\'' % U(lam)[:80]
-        if ok:
-            t = body.test
-            neg = False
-            if isinstance(t, ast.UnaryOp) and isinstance(t.op, ast.Not):
-                t, neg = t.operand, True
-            isnull = isinstance(t, ast.Call) and U(t.func) in ('pd.isnull', 'pd.isna', 'np.isnan', 'pd.notnull', 'pd.notna') \
-                and len(t.args) == 1 and U(t.args[0]) == v
-            if isnull and U(t.func) in ('pd.notnull', 'pd.notna'):
-                neg = not neg
-            null_arm, val_arm = (body.orelse, body.body) if neg else (body.body, body.orelse)
-            ok = isnull and U(null_arm) in ('np.NaN', 'np.nan', 'None', "float('nan')", v) \
-                and not any(isinstance(c, ast.Call) and isinstance(c.func, ast.Name) and c.func.id == 'str' for c in ast.walk(null_arm)) \
-                and isinstance(val_arm, ast.Call) and isinstance(val_arm.func, ast.Name) and val_arm.func.id == 'str'
-            why = 'the element mapping `%s` does not keep a missing value missing (NaN in the isnull arm, str(..) in the other)' % U(lam)[:80]
-        st = view.stmt_of(lam)
         has_int = any(isinstance(c, ast.Call) and isinstance(c.func, ast.Name) and c.func.id == 'int' for c in ast.walk(body))
-        key = 'str(int(v)) mapping' if has_int else 'str(v) mapping'
-        ctx.check('R-CONV/nan-preserving', f, key, ok, why, lam, sample=U(lam)[:90])
+        ctx.check('R-CONV/nan-preserving', f, 'str(int(v)) mapping' if has_int else 'str(v) mapping', ok,
+                  'the element mapping `%s` converts without testing for a missing value: NaN becomes the string \'nan\''
+                  % U(node)[:80], node, sample='%s used only under an isnull guard' % U(node)[:60])
         if has_int:
-            c = conds.of(st)
-            txt = show(c)
-            okc = 'int_values' in txt or 'is_integer' in txt
-            # the integral path: int_values == len(col_non_nan_values)
-            want = None
-            for _, e, pol in __import__('ssjlint.guards', fromlist=['literals']).literals(c):
-                if isinstance(e, ast.Compare) and 'int_values' in U(e):
-                    want = (e, pol)
-            okc = want is not None and want[1] and isinstance(want[0].ops[0], ast.Eq)
-            ctx.check('R-CONV/integral-only', f, 'str(int(v))', okc,
-                      'str(int(v)) is used under `%s`: it may only be used when every present value is integral' % txt[:100], lam,
-                      sample='under int_values == len(col_non_nan_values)')
+            _check_integral(ctx, f, view, conds, node)
     ctx.floor('R-CONV/nan-preserving', n, 2, 'element mappings')
+    return mapping_nodes
+
+
+def _check_integral(ctx, f, view, conds, node):
+    st = view.stmt_of(node)
+    c = conds.of(st)
+    want = None
+    from ..guards import literals
+    for _, e, pol in literals(c):
+        if isinstance(e, ast.Compare) and 'int_values' in U(e):
+            want = (e, pol)
+    okc = want is not None and want[1] and isinstance(want[0].ops[0], ast.Eq)
+    ctx.check('R-CONV/integral-only', f, 'str(int(v))', okc,
+              'str(int(v)) is used under `%s`: it may only be used when every present value is integral' % show(c)[:100], node,
+              sample='under int_values == len(col_non_nan_values)')
 
 
 def check_index_preserving(ctx):
@@ -290,7 +340,7 @@ def check_lost_update(ctx):
                 t = U(src)
                 if isinstance(c.args[0], ast.Name):
                     t = ' | '.join([t] + [U(d.value) for d in view.reaching(c.args[0].id, st) if d.value is not None])
-                kind_change = 'astype(str)' in t or ('apply(' in t and 'str(' in t)
+                kind_change = 'astype(str)' in t or ('apply(' in t and ('str(' in t or 'isnull' in t or 'notnull' in t))
                 branch = 'int-branch' if 'astype(str)' in t else 'float-branch' if 'apply(' in t else 'other'
                 ctx.check('R-CONV/update-kind', f, 'update#%s' % branch, not kind_change,
                           '`%s` writes string values into a numeric Series in place: pandas cannot change a dtype in place '
